@@ -150,4 +150,11 @@ CLAIMS['C10'] = {
   'text': "Decides the glue around the ordering algorithms for every ColPerm value and Fact / SymmetricMode setting: dispatch, index-base conversion paired on both sides of the 1-based MMD routine with the right extents, identity for NATURAL and for an empty structure, private copies and inversion around COLAMD, permutation roles in sp_preorder (scatter by perm_c; relabel etree/colbeg/colend by post; compose perm_c with post; nothing in reuse modes; no post-order in symmetric mode), no read of a matrix value anywhere in the ordering code (pattern-only dependence), no leak on any exit. The correctness of MMD / COLAMD / Liu's algorithm themselves (bijection, exact tree, contiguous post-order) is not decided; of the relaxed-supernode routines only agreement with their ILU twins is.",
   'note': "A seeded change inside COLAMD's scoring loop is not detected (values, not shape).",
 }
+CLAIMS['C15'] = {
+  'level': 'other',
+  'technique': 'static analysis: flag-partitioned event oracle on the ILU driver incl. the MC64 path with must-pass-through on restore loops (R3), capacity/alias rules on the ILU producers (R5), ownership dataflow (R4), inclusive-bound consistency rule, sibling and twin agreement (R9)',
+  'design_ref': 'DESIGN.md 5 C15',
+  'text': "Decides for ?gsisx (all valuations, four types): equilibration / scaling / transpose glue as for the expert driver; MC64 dispatch, fall-back, exponentiation of both duals, scaling by both, equed = B; A's row indices restored by the inverse relabel on every return after the relabel (size-query exit: see known finding under C08); perm_r folded with the MC64 permutation. For the ILU producers: every append capacity-checked (incl. the zero-column fill, repaired by a fix: commit), aliases re-read; count / fix-up / wrap order and reuse-branch refresh of ?gsitrf; no leak in the ILU routines; loops up to relax_end[] inclusive. Breakdown-freedom and exactness with dropping off are statements about values and are not decided.",
+  'note': 'Known finding: {c,z}gsisx with row storage and Trans = CONJ (as {c,z}gssvx). The out-of-space exits of ?gsitrf are recorded under C19.',
+}
 NOT_APPLICABLE = {}
